@@ -77,6 +77,7 @@ macro_rules! dispatch {
             "C05" => $f(&props::c05::C05 $(, $arg)*),
             "C07" => $f(&props::c07::C07 $(, $arg)*),
             "C06" => $f(&props::c06::C06 $(, $arg)*),
+            "C13" => $f(&props::c13::C13 $(, $arg)*),
             other => {
                 eprintln!("unknown property {}", other);
                 3
